@@ -258,3 +258,7 @@ def run(ctx):
 
     ctx.section(c01.numeric_rule, ctx, index, "C03.numeric")
 
+    from . import c10 as _c10_state
+
+    ctx.section(_c10_state.state_slice, ctx, 'C03.state', ['cdd.class_.emit.class_', 'cdd.class_.parse.class_', 'cdd.function.emit.function', 'cdd.function.parse.function', 'cdd.argparse_function.emit.argparse_function', 'cdd.argparse_function.parse.argparse_ast', 'cdd.docstring.emit.docstring', 'cdd.docstring.parse.docstring'], 5)
+
